@@ -1,13 +1,13 @@
 #!/bin/sh
-# usage: seed_verify.sh <PID> <variant> [--suite]   verifies a seeded change in the scratch worktree /tmp/wt/<PID>
+# usage: [SEED_ROUND=2] seed_verify.sh <PID> <variant> [--suite]   verifies a seeded change in the scratch worktree /tmp/wt$SEED_ROUND/<PID>
 # prints: demo_clean=<rc> demo_patched=<rc> suite=<summary>
-pid=$1; v=$2; wt=/tmp/wt/$pid; out=/tmp/seed_out/$pid/$v
+pid=$1; v=$2; r=${SEED_ROUND:-}; wt=/tmp/wt$r/$pid; outroot=/tmp/seed_out$r; out=$outroot/$pid/$v
 [ -d "$wt" ] || { echo "no worktree $wt"; exit 2; }
 git -C $wt checkout -q -- . ; git -C $wt clean -fdq
 cd $wt
-PYTHONPATH=$wt timeout 600 /venv/bin/python $out/demo.py > /tmp/seed_out/$pid/$v.clean.log 2>&1; rc0=$?
+PYTHONPATH=$wt timeout 600 /venv/bin/python $out/demo.py > $outroot/$pid/$v.clean.log 2>&1; rc0=$?
 git -C $wt apply $out/patch.diff || { echo "patch does not apply"; exit 2; }
-PYTHONPATH=$wt timeout 600 /venv/bin/python $out/demo.py > /tmp/seed_out/$pid/$v.patched.log 2>&1; rc1=$?
+PYTHONPATH=$wt timeout 600 /venv/bin/python $out/demo.py > $outroot/$pid/$v.patched.log 2>&1; rc1=$?
 suite="skipped"
 if [ "$3" = "--suite" ]; then
   suite=$(PYTHONPATH=$wt /venv/bin/python -m pytest -q -p no:cacheprovider --timeout=900 --continue-on-collection-errors 2>&1 | tail -1)
